@@ -4,6 +4,7 @@ from fractions import Fraction
 from vp_common import *
 import vp_coq, vp_build
 import dynrf_cases as dc
+import driver_cases as drv
 
 EPS = Fraction(1, 2 ** 24)
 HAVE_MODEL = [True]      # cleared when the extracted model could not be built: implementation-side oracles still run
@@ -513,6 +514,197 @@ def stage_program(ctx, dis, count):
     shutil.rmtree(tmp, ignore_errors=True)
 
 
+
+# ------------------------------------------------------------------------------- program level: step definitions
+
+F_REV, F_S = 9e6, 9000.0
+
+
+def steps_of(spr, N):
+    """`steps` as main() derives it: StepsPerRevolution > 0 overrides StepsPerTs (default 1000)"""
+    if spr is not None and spr > 0:
+        return spr * F_REV / F_S
+    return float(max(N if N is not None else 1000, 1))
+
+
+def run_inovesa_steps(ctx, tg, out, lin, spr, N, T, outstep, amp_deg, fmod, grid=32):
+    if os.path.exists(out):
+        os.remove(out)
+    cmd = ["timeout", "120", tg["inovesa"], "-s", str(grid), "-T", repr(T), "-n", str(outstep), "-F", repr(F_REV), "-f", repr(F_S),
+           "--RFPhaseModAmplitude", repr(amp_deg), "--RFPhaseModFrequency", repr(fmod), "-o", out, "-I", "0.001",
+           "--gui", "false", "--LinearRF", "true" if lin else "false", "-Z", "", "--UseCSR", "false", "--tracking", ""]
+    if spr is not None:
+        cmd += ["--StepsPerRevolution", repr(spr)]
+    if N is not None:
+        cmd += ["-N", str(N)]
+    r = subprocess.run(cmd, capture_output=True, text=True, env=vp_build.xdg_env())
+    return r.returncode, r.stdout, " ".join(cmd[2:])
+
+
+def stage_program_steps(ctx, dis, count):
+    """the step length dt = 1/(f_s*steps) follows from the command line as main() derives it: by -N alone, by
+    --StepsPerRevolution alone, by --StepsPerRevolution together with a contradicting -N (which it overrides);
+    /RFKicks/data must be (syncphase + A sin(2 pi f_mod k dt), 1), one row per executed step"""
+    rng = ctx.rng
+    tg = ctx.build(harness=("impl_dynrf", "h5cat"), want_binary=True)
+    tmp = tempfile.mkdtemp(prefix="c19s_", dir=os.path.join(VERIF, ".cache"))
+    for i in range(count):
+        lin = i % 2 == 0
+        kind = ("N", "spr", "spr+N")[i % 3]
+        spr = None if kind == "N" else rng.choice([0.008, 0.01, 0.02, 0.025, 0.04])
+        N = {"N": rng.choice([8, 10, 20, 25, 40]), "spr": None, "spr+N": rng.choice([7, 50, 333, 1000])}[kind]
+        T = rng.choice([0.5, 1.0, 1.3, 2.0])
+        steps = steps_of(spr, N)
+        n = int(math.ceil(steps * float(f32(T))))
+        outstep = rng.choice([0, 1, 3, 7, n])
+        amp = rng.choice([0.05, 0.2, 2.0])
+        fmod = rng.choice([F_S * steps / 20.0, F_S * steps / 7.0, F_S * steps / 4.0, 23000.0])
+        md = "linear" if lin else "sinusoidal"
+        out = os.path.join(tmp, "s%d.h5" % i)
+        rc, so, cmdline = run_inovesa_steps(ctx, tg, out, lin, spr, N, T, outstep, amp, fmod)
+        case = dict(kind="program-steps", cmd=cmdline, LinearRF=lin, StepsPerRevolution=spr, StepsPerTs=N, rotations=T, outstep=outstep,
+                    RFPhaseModAmplitude=amp, RFPhaseModFrequency=fmod, RevolutionFrequency=F_REV, SynchrotronFrequency=F_S,
+                    steps_per_Ts_effective=steps, executed_steps=n)
+        if rc != 0 or not os.path.exists(out):
+            ctx.violation("impl-oracle", "inovesa failed (rc=%d)" % rc, case=case, observed=so[-400:], sig=dict(kind="program", clause="run", model=md))
+            continue
+        info, vals = h5rows(tg, out)
+        dims = info.get("/RFKicks/data", {}).get("dims")
+        if dims != [n, 2]:
+            ctx.violation("impl-oracle", "/RFKicks/data has dims %s after %d executed steps (steps defined by %s)" % (dims, n, kind), case=case,
+                          observed=dims, expected=[n, 2], sig=dict(kind="program", clause="row-count", model=md, stepdef=kind))
+            continue
+        rows = dc.pairs(vals)
+        ph0 = parse_c(rows[0][0])
+        A = amp / 360.0 * 2 * math.pi
+        dt = 1.0 / (F_S * steps)
+        bad = None
+        for k, (ph, am) in enumerate(rows):
+            arg = 2 * math.pi * (fmod * dt) * k
+            e = (Fraction(ph0) if not isinstance(ph0, str) else 0) + Fraction(A * math.sin(arg))
+            # amplitude: A is stored in binary32; frequency: the phase increment 2 pi f dt is stored in binary32 (2^-24
+            # relative, i.e. |arg| 2^-24 on the k-th argument); libm sine 1 ulp: K = 8 covers both
+            tol = Fraction(abs(A)) * Fraction(max(1.0, abs(arg))) / 2 ** 21 + 4 * EPS * (abs(Fraction(ph0) if not isinstance(ph0, str) else 0) + Fraction(abs(A))) + TINY
+            v = parse_c(ph)
+            if isinstance(v, str) or abs(v - e) > tol or parse_c(am) != 1 or (lin and ph0 != 0):
+                bad = (k, ph, am, e, tol)
+                break
+        if bad:
+            k, ph, am, e, tol = bad
+            # measured amplitude and frequency (zero crossings), for the report
+            vs = [float(parse_c(p_)) - (float(ph0) if not isinstance(ph0, str) else 0.0) for p_, _ in rows if not isinstance(parse_c(p_), str)]
+            cr = [j - 1 + vs[j - 1] / (vs[j - 1] - vs[j]) for j in range(1, len(vs)) if vs[j - 1] * vs[j] < 0]
+            fmeas = (len(cr) - 1) / 2.0 / ((cr[-1] - cr[0]) * dt) if len(cr) > 1 else None
+            ctx.violation("impl-oracle", "/RFKicks/data row %d is not (syncphase + A sin(2 pi f_mod k dt), 1) with dt = 1/(f_s steps) derived from the "
+                          "command line (steps defined by %s)" % (k, kind), case=case,
+                          observed=dict(k=k, phase=ph, amplitude=am, row0=rows[0][0], max_abs_phase=max(abs(x) for x in vs) if vs else None,
+                                        frequency_from_zero_crossings=fmeas),
+                          expected=dict(phase=float(e), amplitude=1, tol=float(tol), A=A, f_mod=fmod, dt=dt),
+                          sig=dict(kind="program", clause="sinusoidal", model=md, stepdef=kind))
+        ctx.case_done(("program-steps", i), n >= 3 and fmod * dt * n > 0.5)
+        ctx.count("program-steps:%s:%s" % (kind, md))
+        if i < 3:
+            ctx.sample(dict(kind="program-steps", stepdef=kind, StepsPerRevolution=spr, N=N, T=T, steps=steps, executed=n, f_mod=fmod, amp_deg=amp))
+    import shutil
+    shutil.rmtree(tmp, ignore_errors=True)
+
+
+# ------------------------------------------------------------------------------- program level: flush schedule under interrupts
+
+INTERESTING = ("out:tracks", "out:rfkicks", "out:counted", "step:wake_tracked", "step:rf", "step:rf_tracked", "loop:head", "loop:step_counted",
+               "fin:loop_left", "fin:tracks", "fin:rfkicks", "fin:file_done", "pre:done", "setup:rf_made", "setup:outputs_ready")
+
+
+def stage_program_interrupt(ctx, dis, nconf, nper):
+    """binary with RF phase modulation, several output cadences, SIGINT raised by the VERIF_POINT hook at chosen points:
+    /RFKicks/data must hold exactly one row per rfm->apply() the run executed (counted in its own label trace), the rows
+    must be the first rows of the every-step reference run in order, and the extracted driver model (generated main_prog,
+    records numbered) must flush exactly the records 0..m-1 for the same schedule"""
+    rng = ctx.rng
+    tg = ctx.build(harness=("h5cat",), want_binary=True)
+    use_model = HAVE_DRIVER[0]
+    points, setup = drv.point_tables() if use_model else ([], [])
+    wd = tempfile.mkdtemp(prefix="c19i_", dir=os.path.join(VERIF, ".cache"))
+    for ci in range(nconf):
+        N = rng.choice([6, 7, 8, 9])
+        outstep = [0, 1, 2, 3, N, N + 5, 4][ci % 7]
+        cfg = dict(n=16, N=N, T=1, outstep=outstep, h5save=rng.choice([0, 1, 2]), renorm=rng.choice([-1, 0, 3]), wake=(ci % 3 == 0),
+                   dynrf=True, linrf=ci % 2, tracking=None, verbose=False)
+        md = "linear" if cfg["linrf"] else "sinusoidal"
+        if ci == 0:
+            drv.run_real(tg, dict(cfg, outstep=0, h5save=0), os.path.join(wd, "warm.h5"), want_trace=False)
+        un = drv.run_real(tg, cfg, os.path.join(wd, "un.h5"))
+        hun = drv.h5read(tg, os.path.join(wd, "un.h5"), only=["/RFKicks/data"])
+        ref = drv.run_real(tg, dict(cfg, outstep=1), os.path.join(wd, "ref.h5"), want_trace=False)
+        href = drv.h5read(tg, os.path.join(wd, "ref.h5"), only=["/RFKicks/data"])
+        case0 = dict(kind="program-interrupt", cmd=" ".join(drv.cmdline(cfg, "int.h5")), outstep=outstep, steps=N, LinearRF=cfg["linrf"])
+        if un["rc"] != 0 or ref["rc"] != 0 or not hun or not href or "/RFKicks/data" not in href:
+            ctx.violation("impl-oracle", "run with RF modulation failed", case=case0, observed=(un["log"] + ref["log"])[-400:],
+                          sig=dict(kind="program", clause="run", model=md))
+            continue
+        refrows = href["/RFKicks/data"]["rows"]
+        distinct = len(set(refrows)) == len(refrows)
+        nsetup = len([l for l in un["labels"] if l.startswith("setup:")])
+        P = len(un["labels"])
+        cand = [i for i, l in enumerate(un["labels"]) if l in INTERESTING]
+        chosen = sorted(set(rng.sample(cand, min(len(cand), nper - 3)) + rng.sample(range(nsetup, P), 2) + [P]))
+        plan = [(None, False)] + [(i, rng.random() < 0.25) for i in chosen]
+        models = {}
+        if use_model:
+            try:
+                mcfg = drv.with_oracle(cfg, un)
+                models = drv.run_model([("p%s_%d" % (i, rep), mcfg, i, rep, nsetup) for i, rep in plan])
+            except Exception as e:
+                ctx.notes.append("driver model failed: %s" % str(e)[-200:])
+        for i, rep in plan:
+            if i is None:
+                r, h = un, hun
+            else:
+                r = drv.run_real(tg, cfg, os.path.join(wd, "int.h5"), sig_at=i, rep=rep)
+                h = drv.h5read(tg, os.path.join(wd, "int.h5"), only=["/RFKicks/data"])
+            label = "(none)" if i is None else (un["labels"][i] if i < P else "(beyond the last point)")
+            case = dict(case0, INOVESA_VERIF_SIGINT_AT=i, INOVESA_VERIF_SIGINT_REPEAT=rep, label=label)
+            applied = r["labels"].count("step:rf")           # rfm->apply() calls the run executed
+            started = "pre:done" in r["labels"]
+            rows = h["/RFKicks/data"]["rows"] if h and "/RFKicks/data" in h else None
+            if r["rc"] != 0 or (rows is None and started):
+                ctx.violation("impl-oracle", "run with RF modulation interrupted at %s: exit %s, /RFKicks/data %s" % (label, r["rc"], "missing" if rows is None else "present"),
+                              case=case, sig=dict(kind="program", clause="interrupt-run", model=md))
+                continue
+            if rows is None:
+                continue
+            if len(rows) != applied:
+                ctx.violation("impl-oracle", "/RFKicks/data has %d rows but the run applied the RF map %d times (outstep %d, SIGINT at %s)" % (
+                    len(rows), applied, outstep, label), case=case, observed=len(rows), expected=applied,
+                    sig=dict(kind="program", clause="row-per-applied-step", model=md))
+            elif list(rows) != list(refrows[:applied]):
+                j = next(j for j, (a, b) in enumerate(zip(rows, refrows)) if a != b)
+                ctx.violation("impl-oracle", "/RFKicks/data row %d is not the record the reference run used in step %d (outstep %d, SIGINT at %s)" % (
+                    j, j, outstep, label), case=case, observed=rows[j], expected=refrows[j],
+                    sig=dict(kind="program", clause="row-is-step-record", model=md))
+            mo = models.get("p%s_%d" % (i, rep))
+            if mo is not None:
+                flushed = [x for _, ch in mo.get("rf", []) for x in ch]
+                # the theorem's statement, on the executable instance, and the model against the implementation
+                if flushed != list(range(mo["k"])) or mo.get("pending"):
+                    dis.append(dict(case=case, detail="model: flushed %s pending %s after %d steps" % (flushed, mo.get("pending"), mo["k"]),
+                                    sig=dict(kind="program", stage="model-records")))
+                if mo["k"] != applied or len(flushed) != len(rows):
+                    dis.append(dict(case=case, detail=dict(model_steps=mo["k"], impl_applied=applied, model_rows=len(flushed), impl_rows=len(rows)),
+                                    sig=dict(kind="program", stage="correspondence-interrupt")))
+                mtrace = [points[x] for x, _ in mo["trace"]]
+                if r["labels"][nsetup:] != mtrace:
+                    dis.append(dict(case=case, detail="label trace differs from the model's (lengths %d/%d)" % (len(r["labels"]) - nsetup, len(mtrace)),
+                                    sig=dict(kind="program", stage="correspondence-trace")))
+            ctx.case_done(("program-interrupt", ci, i, rep), distinct and applied >= 2 and i is not None and applied < N)
+            ctx.count("program-interrupt:%s" % ("outstep0" if outstep == 0 else ("every" if outstep == 1 else ("big" if outstep >= N else "mid"))))
+        ctx.sample(dict(kind="program-interrupt", cfg={k: v for k, v in cfg.items() if k != "tracking"}, points=len(plan)))
+    import shutil
+    shutil.rmtree(wd, ignore_errors=True)
+
+
+HAVE_DRIVER = [False]
+
 # ------------------------------------------------------------------------------- run / replay
 
 def run(ctx):
@@ -522,8 +714,12 @@ def run(ctx):
                 "records exact against the extracted queue machine, kick offsets bit for bit against _calcKick(record). calcmod/calckick: "
                 "tolerance stream K*2^-24*cond against the extracted arithmetic with libm sines supplied. program: inovesa runs, both RF models, "
                 "outstep in {0,1,2,3,n,n+5,7}: /RFKicks/data rows = executed steps, values against the sinusoidal formula. "
+                "program-steps: steps defined by -N, by --StepsPerRevolution, by --StepsPerRevolution with a contradicting -N; rows against "
+                "A sin(2 pi f_mod k dt) with dt derived from the command line as main() does. program-interrupt: RF modulation, seven cadences, "
+                "SIGINT by the VERIF_POINT hook at chosen points: rows = rfm->apply() calls of the run's own trace = first rows of the every-step "
+                "reference; extracted driver model (generated main_prog + set-up skeleton, numbered records) flushes records 0..m-1. "
                 "Non-trivial: finite non-zero offsets on non-zero data / schedules with >= 2 applies and a flush between / A != 0.")
-    coq = vp_coq.full_check("C19", ctx, fams=("dynrf",))
+    coq = vp_coq.full_check("C19", ctx, fams=("dynrf", "driver"))
     dis = []
     cm = None
     try:
@@ -539,6 +735,9 @@ def run(ctx):
     stage_calcmod(ctx, dis, 120 if q else 3000)
     stage_calckick(ctx, dis, 120 if q else 3000)
     stage_program(ctx, dis, 21 if q else 140)
+    stage_program_steps(ctx, dis, 18 if q else 120)
+    HAVE_DRIVER[0] = bool(os.path.exists(vp_coq.model_path("driver")) and coq["extract_ok"] and coq["make_ok"])
+    stage_program_interrupt(ctx, dis, 7 if q else 28, 9 if q else 16)
     ctx.extra["correspondence_disagreements"] = len(dis)
     ctx.assumptions += ["exact-arithmetic model (DESIGN 3); tan/sin/sqrt/asin are abstract in the theorems, libm values are supplied to the extracted model",
                         "overload resolution modelled by arity; agreement with clang's resolution is part of the checked obligation",
